@@ -654,6 +654,8 @@ class Runner:
         self._stop = False
         self._traced = False
         self._functions = set()
+        self.known = []
+        self.match_known = None
 
     # ---- obligations (called from SymH.check on the current path)
     def obligation(self, h, name, cond, why=""):
@@ -763,6 +765,12 @@ class Runner:
 
     def _violation(self, name, witness, rp, kind):
         v = {"obligation": name, "witness": witness, "params": self.params, "replay": rp, "kind": kind}
+        kid = self.match_known(v, self.known) if (self.match_known and self.known) else None
+        if kid is not None:
+            # a listed (open) known finding: recorded, not reported as a new violation, exploration continues
+            v["known_id"] = kid
+            self.res.setdefault("known_hits", []).append(v)
+            return
         self.res["violations"].append(v)
         self.ex.stop = True   # one reproduced violation per work item is enough
 
@@ -893,4 +901,12 @@ def run_item(prop, module_name, params, opts):
     """entry point for worker processes"""
     mod = importlib.import_module(module_name)
     r = Runner(prop, mod.run, params, **opts)
+    r.match_known = getattr(mod, "match_known", None)
+    try:
+        import pathlib
+
+        kf = json.loads((pathlib.Path(__file__).resolve().parent.parent / "known_findings.json").read_text())
+        r.known = [k for k in kf.get("findings", []) if k.get("property") == prop and k.get("status") == "open"]
+    except Exception:  # noqa: BLE001
+        r.known = []
     return r.go()
